@@ -185,9 +185,11 @@ pub fn gen_stream(r: &mut Rng) -> Vec<u8> {
         8 => {
             // exactly the preface, or preface with one corrupted byte
             let mut v = PREFACE.to_vec();
-            if r.chance(1, 2) {
-                let k = r.below(24) as usize;
-                v[k] ^= 1 + r.below(255) as u8;
+            match r.below(3) {
+                0 => { let k = r.below(24) as usize; v[k] ^= 1 + r.below(255) as u8; }
+                // the preface in another letter case (all of it, or a few of its letters) is not the preface
+                1 => { let all = r.chance(1, 2); for b in v.iter_mut() { if b.is_ascii_alphabetic() && (all || r.chance(1, 3)) { *b ^= 0x20; } } v.extend_from_slice(&[0, 0, 0, 4, 0, 0, 0, 0, 0]); }
+                _ => {}
             }
             v
         }
